@@ -8,7 +8,7 @@ import z3
 from contracts import common as CC
 from contracts import iban as S
 from pyvc import task as T
-from pyvc.values import SObj, SStr, lift_str, payload
+from pyvc.values import SBool, SObj, SStr, lift_str, payload
 
 
 def _contracts(L):
@@ -80,6 +80,123 @@ class FromBbanTask(T.Task):
     def sample(self, rnd):
         return {"b": "".join(rnd.choice({"n": "0123456789", "a": "ABCDEFGHIJKLMNOPQRSTUVWXYZ",
                                          "c": "0123456789ABCDEFGHIJKLMNOPQRSTUVWXYZ"}[k]) for k in self.cl)}
+
+
+class FromBbanFlagTask(T.Task):
+    """IBAN.from_bban(K, b, validate_bban=flag) for EVERY clean text b of length n (n = L-1, L, L+1; any characters)
+    and both values of the flag: returns exactly when b fits the country's structure [and, with the flag, the national
+    rule accepts it]; the result is K + canonical digits + b; anything else is a library exception naming a present
+    defect - the alternate constructor validates like IBAN(...) and threads the flag."""
+    crosscheck_samples = 150
+
+    def __init__(self, cc, n):
+        from props.ibantasks import national_contract, table
+        self.cc, self.n = cc, int(n)
+        self.L = table()[cc]["bban_length"]
+        self.cl = tuple(CC.classes(table()[cc]["bban_spec"]))
+        self.name = f"IBAN.from_bban[{cc}, len(b)={self.n}{'' if self.n == self.L else ' (wrong length)'}, validate_bban=flag]"
+        self.contracts = _contracts(self.L)
+        self.contracts["schwifty.checksum.numerify"] = CC.make_raising_numerify_contract(self.L)
+        self.contracts["schwifty.bban.BBAN.validate_national_checksum"] = national_contract
+
+    def setup(self, I):
+        b = [z3.Int(f"b{i}") for i in range(self.n)]
+        for x in b:
+            I.assumptions += [CC.Fix(x), CC.fix_facts(x)]
+        return {"b": SStr(b), "validate_bban": SBool(z3.Bool("validate_bban"))}
+
+    def code(self, I, inp):
+        from schwifty import IBAN
+        return I.call(I.getattr(IBAN, "from_bban"), [self.cc, inp["b"]], {"validate_bban": inp["validate_bban"]})
+
+    def observe(self, I, path):
+        o = T.std_observe(path)
+        if isinstance(o, SObj):
+            return ("IBAN", payload(o))
+        return o
+
+    def custom_obligations(self, I, inp, code_paths, cobs):
+        from props.ibantasks import LIB, nat_ok
+        b = inp["b"].chars
+        flag = inp["validate_bban"].t
+        fits = z3.And(z3.BoolVal(self.n == self.L), *[CC.CLS[k](c) for k, c in zip(self.cl, b)]) if self.n == self.L \
+            else z3.BoolVal(False)
+        nat = nat_ok(self.cc, list(b)) if self.n == self.L else z3.BoolVal(True)
+        full = z3.And(fits, z3.Implies(flag, nat))
+        out = []
+        for i, (path, o) in enumerate(cobs):
+            pc = path["pc"]
+            if isinstance(o, T.Escape):
+                continue
+            if isinstance(o, tuple) and o[0] == "IBAN":
+                s = lift_str(o[1]).chars
+                out.append((f"path {i}: returns => b fits the structure" + (" and (flag => national rule)"), pc, full))
+                if len(s) == self.L + 4 and self.n == self.L:
+                    k = 98 - (CC.num_term(I, list(b) + [z3.IntVal(ord(c)) for c in self.cc], self.L) * 100) % 97
+                    out.append((f"path {i}: result = country code + canonical digits + b", pc, z3.And(
+                        s[0] == ord(self.cc[0]), s[1] == ord(self.cc[1]), CC.z_digit(s[2]), CC.z_digit(s[3]),
+                        (s[2] - 48) * 10 + (s[3] - 48) == k, *[x == y for x, y in zip(s[4:], b)])))
+            elif isinstance(o, T.ExcTag) and o.name in LIB:
+                out.append((f"path {i}: raises {o.name} => not (b fits [and national rule])", pc, z3.Not(full)))
+                if o.name in ("InvalidBBANChecksum", "InvalidAccountCode"):
+                    out.append((f"path {i}: raises {o.name} => structure fine, flag set, national rule rejects", pc,
+                                z3.And(fits, flag, z3.Not(nat))))
+                if o.name == "InvalidLength":
+                    out.append((f"path {i}: raises InvalidLength => wrong length", pc, z3.BoolVal(self.n != self.L)))
+            else:
+                out.append((f"path {i}: outcome {o!r} is not an admitted outcome", pc, z3.BoolVal(False)))
+        return out
+
+    def native_code(self, inp):
+        from schwifty import IBAN
+        o = T.native_obs(lambda: str(IBAN.from_bban(self.cc, inp["b"], validate_bban=inp["validate_bban"])))
+        return o
+
+    def native_agree(self, inp):
+        from props.ibantasks import native_national
+        b = inp["b"]
+        c = self.native_code(inp)
+        alpha = {"n": "0123456789", "a": "ABCDEFGHIJKLMNOPQRSTUVWXYZ", "c": "0123456789ABCDEFGHIJKLMNOPQRSTUVWXYZ"}
+        fits = len(b) == self.L and all(ch in alpha[k] for k, ch in zip(self.cl, b))
+        nat = native_national(self.cc, b) if (fits and inp["validate_bban"]) else True
+        full = fits and nat
+        if isinstance(c, str):
+            k = 98 - (CC.Num(b + self.cc) * 100) % 97 if fits else -1
+            return full and c == f"{self.cc}{k:02d}{b}", c, f"fits={fits} national={nat}"
+        if isinstance(c, T.ExcTag):
+            return not full, c, f"fits={fits} national={nat}"
+        return False, c, "a return or a library exception"
+
+    def sample(self, rnd):
+        alpha = {"n": "0123456789", "a": "ABCDEFGHIJKLMNOPQRSTUVWXYZ", "c": "0123456789ABCDEFGHIJKLMNOPQRSTUVWXYZ"}
+        cl = (list(self.cl) + ["n", "n"])[: self.n]
+        b = "".join(rnd.choice(alpha[k]) for k in cl)
+        # half of the samples sit at a LISTED bank (its method / national rule applies; random bank codes are mostly
+        # unlisted, where national validation accepts everything)
+        codes = getattr(self, "_codes", None)
+        if codes is None:
+            from props.ibantasks import table
+            from schwifty import registry
+            a, e = table()[self.cc].get("positions", {}).get("bank_code", [0, 0])
+            codes = self._codes = sorted({x["bank_code"] for x in registry.get("bank")
+                                          if x["country_code"] == self.cc and len(x.get("bank_code") or "") == e - a and e > a})
+            self._bank_at = a
+        if codes and rnd.random() < 0.5 and self.n == self.L:
+            c_ = rnd.choice(codes)
+            b = b[: self._bank_at] + c_ + b[self._bank_at + len(c_):]
+        if rnd.random() < 0.3 and b:
+            i = rnd.randrange(len(b))
+            b = b[:i] + rnd.choice("-_!\u0663A0z") .upper() + b[i + 1:]
+        return {"b": b, "validate_bban": rnd.random() < 0.6}
+
+
+def from_bban_flag_specs(ccs):
+    from props.ibantasks import table
+    out = []
+    for cc in ccs:
+        L = table()[cc]["bban_length"]
+        out += [("props.c02", "FromBbanFlagTask", (cc, n)) for n in (L - 1, L, L + 1)]
+    return out
 
 
 class DigitPairTask(T.Task):
